@@ -18,6 +18,9 @@ fn c17_touch_size_counts_each_touch_bounded_3() {
     assert!(total == 3);
     let want_a = 1 + (b == a) as u64 + (c == a) as u64;
     assert!(na == want_a);
+    // strictly ascending by size: one bucket per distinct size, in order (whatever order the sizes arrived in)
+    let mut j = 0;
+    while j + 1 < st.0.len() { assert!(st.0[j].0.as_value() < st.0[j + 1].0.as_value()); j += 1; }
 }
 #[kani::proof]
 #[kani::unwind(6)]
@@ -31,4 +34,7 @@ fn c17_touch_length_counts_each_touch_bounded_3() {
     let mut total = 0u64; let mut i = 0;
     while i < st.0.len() { total += st.0[i].1; i += 1; }
     assert!(total == 3);
+    let mut j = 0;
+    while j + 1 < st.0.len() { assert!(st.0[j].0.as_value() < st.0[j + 1].0.as_value()); j += 1; }
 }
+
